@@ -82,6 +82,13 @@ def mutants(data, rng, n, others=()):
         for ws in (b'  ', b'\t', b'   '):
             add(data + ws)
             add(data.rstrip(b'\r\n') + ws + data[len(data.rstrip(b'\r\n')):])
+        # JSON values: a character of a string given as \uXXXX escape (an ASCII letter - the same string - and a non-ASCII one)
+        if data[:1] == b'{' and b'": "' in data:
+            i = data.find(b'": "') + 4
+            if i < len(data) - 1 and 0x61 <= data[i] <= 0x7a:
+                add(data[:i] + b'\\u00' + b'%02x' % data[i] + data[i + 1:])
+            add(data[:i] + b'\\u00fc' + data[i:])
+            add(data[:i] + b'\\u20ac\\ud83d\\ude00' + data[i:])
         # keys of key:value / key=value tokens exchanged (an IPv4 network under ip6:, a number where a name is expected)
         import re as _re
         toks = _re.findall(rb'[^ ;,]+', data)
